@@ -1,45 +1,4 @@
-(* driver.ml -- runs the extracted Gallina model on a cases file (one case per line) and
-   prints one canonical result line per case.  Mirrors the C harnesses in ../harness.
-   Only conversion glue lives here; every result is computed by code extracted from Coq. *)
-open Model
-
-let rec pos_of_int (i : int) : positive =
-  if i = 1 then XH
-  else if i land 1 = 1 then XI (pos_of_int (i lsr 1))
-  else XO (pos_of_int (i lsr 1))
-
-let n_of_int (i : int) : n = if i = 0 then N0 else Npos (pos_of_int i)
-
-let rec int_of_pos (p : positive) : int =
-  match p with XH -> 1 | XO q -> 2 * int_of_pos q | XI q -> 2 * int_of_pos q + 1
-
-let int_of_n (x : n) : int = match x with N0 -> 0 | Npos p -> int_of_pos p
-
-let rec nat_of_int (i : int) : nat = if i <= 0 then O else S (nat_of_int (i - 1))
-
-let int_of_nat (x : nat) : int =
-  let rec go acc = function O -> acc | S y -> go (acc + 1) y in
-  go 0 x
-
-let bytes_of_hex (h : string) : n list =
-  if h = "-" then []
-  else begin
-    let len = String.length h / 2 in
-    let rec go i acc =
-      if i < 0 then acc
-      else go (i - 1) (n_of_int (int_of_string ("0x" ^ String.sub h (2 * i) 2)) :: acc)
-    in
-    go (len - 1) []
-  end
-
-let hex_of_bytes (l : n list) : string =
-  if l = [] then "-"
-  else begin
-    let b = Buffer.create 64 in
-    Stdlib.List.iter (fun x -> Buffer.add_string b (Printf.sprintf "%02x" (int_of_n x))) l;
-    Buffer.contents b
-  end
-
+(* drv_c07.ml -- cases for C07 (codecs) *)
 let codec_of_int i =
   match i with 0 -> b32 | 1 -> b64 | 2 -> b64u | 3 -> b128 | _ -> failwith "codec"
 
@@ -76,13 +35,3 @@ let run_line (line : string) : string =
   | [ "B85"; v ] -> Printf.sprintf "%d" (int_of_n (b32_8to5 (n_of_int (int_of_string v))))
   | _ -> "UNKNOWN-CASE"
 
-let () =
-  let ic = if Array.length Sys.argv > 1 then open_in Sys.argv.(1) else stdin in
-  (try
-     while true do
-       let line = input_line ic in
-       if String.length line > 0 && line.[0] <> '#' then
-         print_endline (try run_line line with e -> "EXC " ^ Printexc.to_string e)
-     done
-   with End_of_file -> ());
-  flush stdout
